@@ -45,8 +45,6 @@ impl crate::serde::Serialize for IbcWaitingForReply {
 impl crate::serde::Serialize for UnstakeRequest {
     open spec fn imap_get(s: StoreView) -> SMap<(u64, String), Self> { s.requests }
     open spec fn imap_put(s: StoreView, m: SMap<(u64, String), Self>) -> StoreView { StoreView { requests: m, ..s } }
-    open spec fn idx_user(v: Self) -> String { v.user }
-    open spec fn idx_batch(v: Self) -> u64 { v.batch_id }
 }
 
 } // verus!
